@@ -439,12 +439,25 @@ pub fn io_kind(e: &std::io::Error) -> String {
     format!("Io({:?})", e.kind())
 }
 
-struct Collect<'a>(&'a mut Vec<u8>, &'a mut Vec<(u64, usize)>);
+/// The caller's writer for `write_to`: records what it was given and when.  Like a pipe or a socket it may
+/// accept fewer bytes than offered (`cap`, 0 = everything) and may be interrupted (`eintr_every`-th call).
+struct Collect<'a> {
+    out: &'a mut Vec<u8>,
+    stamps: &'a mut Vec<(u64, usize)>,
+    cap: usize,
+    eintr_every: usize,
+    calls: usize,
+}
 impl std::io::Write for Collect<'_> {
     fn write(&mut self, b: &[u8]) -> std::io::Result<usize> {
-        self.0.extend_from_slice(b);
-        self.1.push((attosim::now_ns(), b.len()));
-        Ok(b.len())
+        self.calls += 1;
+        if self.eintr_every > 0 && self.calls % self.eintr_every == 0 {
+            return Err(std::io::ErrorKind::Interrupted.into());
+        }
+        let n = if self.cap > 0 { b.len().min(self.cap) } else { b.len() };
+        self.out.extend_from_slice(&b[..n]);
+        self.stamps.push((attosim::now_ns(), n));
+        Ok(n)
     }
     fn flush(&mut self) -> std::io::Result<()> {
         Ok(())
@@ -642,7 +655,16 @@ pub fn caller_with(plan: &BodyPlan, stop_on_block: bool, tweak: impl FnOnce(atto
             let t_in = attosim::now_ns();
             let mut sink = Vec::new();
             let mut stamps = Vec::new();
-            let r = resp.write_to(Collect(&mut sink, &mut stamps));
+            // derived from the plan (no draw): a writer that takes everything, at most 1000 bytes, or (small
+            // bodies) one byte per call; every third plan is interrupted now and then
+            let len = plan.payload.len();
+            let cap = match len % 5 {
+                0 => 1000,
+                1 if len < 5000 => 1,
+                _ => 0,
+            };
+            let eintr_every = if len % 3 == 0 { 7 } else { 0 };
+            let r = resp.write_to(Collect { out: &mut sink, stamps: &mut stamps, cap, eintr_every, calls: 0 });
             let t_out = attosim::now_ns();
             o.output = sink;
             o.sink_writes = stamps;
